@@ -212,12 +212,34 @@ class Ctx:
 # ----------------------------------------------------------------------------- pool
 
 _worker_check = None
+_SLOT = 4096
+_slots = None        # shared byte array, one slot per worker: "<timestamp>\n<json case>"
+_slot_index = None
+_my_slot = None
 
 
-def _worker_init(modname, cfg):
-    global _worker_check
+def mark(case):
+    """Record (in shared memory) the execution this worker is about to start, so that the parent can
+    name the input when the library never returns (jitted code cannot be interrupted from Python)."""
+    if _my_slot is None:
+        return
+    try:
+        blob = ('%f\n' % time.time()).encode() + json.dumps(jsonable(case)).encode()
+    except Exception:
+        blob = ('%f\n' % time.time()).encode() + repr(case).encode()
+    blob = blob[:_SLOT - 1] + b'\0'
+    base = _my_slot * _SLOT
+    _slots[base:base + len(blob)] = blob
+
+
+def _worker_init(modname, cfg, slots, slot_index):
+    global _worker_check, _slots, _my_slot
     try:
         import importlib
+        _slots = slots
+        with slot_index.get_lock():
+            _my_slot = slot_index.value
+            slot_index.value += 1
         devnull = open(os.devnull, 'w')
         # the library prints on some parser errors; keep the real stdout for the parent only
         os.dup2(devnull.fileno(), 1)
@@ -242,26 +264,68 @@ def _worker_init(modname, cfg):
 def _worker_run(shard):
     try:
         t0 = time.time()
+        mark({'shard': shard, 'note': 'shard started, no execution marked yet'})
         res = _worker_check.run_shard(shard)
         res['wall'] = time.time() - t0
+        mark({'idle': True})
         return ('ok', res)
     except BaseException:
         return ('error', {'shard': repr(shard)[:500], 'trace': traceback.format_exc()})
 
 
-def run_pool(modname, cfg, shards, workers):
-    """Run shards on a fresh pool whose workers were initialised with cfg. Returns list of results."""
+class Hang(Exception):
+    def __init__(self, cases):
+        Exception.__init__(self, "no termination")
+        self.cases = cases
+
+
+def run_pool(modname, cfg, shards, workers, hang_after=None):
+    """Run shards on a fresh pool whose workers were initialised with cfg. Returns list of results.
+    If a worker stays on ONE marked execution for more than `hang_after` seconds the pool is killed and
+    Hang(cases) is raised with the inputs the library did not return from."""
+    import multiprocessing.sharedctypes as sct
+    hang_after = hang_after or float(cfg.get('hang_after', os.environ.get('MC_HANG_AFTER', 240)))
     ctx = mp.get_context('fork')
     results = []
     if not shards:
         return results
-    with ctx.Pool(processes=min(workers, len(shards)), initializer=_worker_init,
-                  initargs=(modname, cfg), maxtasksperchild=None) as pool:
-        for status, res in pool.imap_unordered(_worker_run, shards, chunksize=1):
+    nproc = min(workers, len(shards))
+    slots = sct.RawArray('c', nproc * _SLOT)
+    slot_index = ctx.Value('i', 0)
+    pool = ctx.Pool(processes=nproc, initializer=_worker_init, initargs=(modname, cfg, slots, slot_index))
+    try:
+        it = pool.imap_unordered(_worker_run, shards, chunksize=1)
+        done = 0
+        while done < len(shards):
+            try:
+                status, res = it.next(timeout=15)
+            except mp.TimeoutError:
+                now = time.time()
+                hung = []
+                for w in range(nproc):
+                    raw = slots[w * _SLOT:(w + 1) * _SLOT].split(b'\0', 1)[0]
+                    if not raw:
+                        continue
+                    ts, _, body = raw.partition(b'\n')
+                    try:
+                        age = now - float(ts)
+                        case = json.loads(body.decode())
+                    except ValueError:
+                        continue
+                    if isinstance(case, dict) and case.get('idle'):
+                        continue
+                    if age > hang_after:
+                        hung.append(case)
+                if hung:
+                    raise Hang(hung)
+                continue
+            done += 1
             if status == 'error':
-                pool.terminate()
                 raise HarnessError("shard failed: %s\n%s" % (res['shard'], res['trace']))
             results.append(res)
+    finally:
+        pool.terminate()
+        pool.join()
     return results
 
 
